@@ -25,9 +25,76 @@ theorem sortDesc_perm (key : String → Nat) (l : List String) : (sortDesc key l
   | nil => exact List.Perm.refl _
   | cons x xs ih => exact (insertDesc_perm key x _).trans (List.Perm.cons x ih)
 
+theorem pyOrder_perm (es : List Entity) : ∀ (f : Nat) (l : List String), l.length = f → (pyOrder es f l).Perm l
+  | 0, l, _ => by simp [pyOrder]
+  | f + 1, [], _ => by simp [pyOrder]
+  | f + 1, x :: xs, h => by
+    simp only [pyOrder]
+    have hr : ((x :: xs).find? (fun r => !blocked es r (x :: xs))).getD x ∈ x :: xs := by
+      cases hf : (x :: xs).find? (fun r => !blocked es r (x :: xs)) with
+      | none => simp
+      | some y => simpa using List.mem_of_find?_eq_some hf
+    generalize ((x :: xs).find? (fun r => !blocked es r (x :: xs))).getD x = r at hr
+    have hlen : ((x :: xs).erase r).length = f := by
+      rw [List.length_erase_of_mem hr]; simp at h ⊢; omega
+    exact (List.Perm.cons r (pyOrder_perm es f _ hlen)).trans (List.perm_cons_erase hr).symm
+
+theorem pyOrder_id (es : List Entity) (l : List String)
+    (h : ∀ r ∈ l, ∀ o ∈ l, isAncestor es es.length r o = false) : ∀ f, l.length = f → pyOrder es f l = l := by
+  induction l with
+  | nil => intro f hf; cases f <;> simp [pyOrder]
+  | cons x xs ih =>
+    intro f hf
+    cases f with
+    | zero => simp at hf
+    | succ f =>
+      have hb : blocked es x (x :: xs) = false := by
+        unfold blocked
+        rw [List.any_eq_false]
+        intro o ho
+        simp [h x List.mem_cons_self o ho]
+      simp only [pyOrder]
+      rw [List.find?_cons_of_pos (by simp [hb])]
+      simp only [Option.getD_some, List.erase_cons_head]
+      rw [ih (fun r hr o ho => h r (List.mem_cons_of_mem _ hr) o (List.mem_cons_of_mem _ ho)) f (by simpa using hf)]
+
 /-- The emitted base classes are exactly the entity's supertypes (each once, none added), for every schema. -/
-theorem C18_bases_are_the_supertypes (es : List Entity) (e : Entity) : (bases es e).Perm e.supers :=
-  sortDesc_perm _ _
+theorem C18_bases_are_the_supertypes (es : List Entity) (e : Entity) : (bases es e).Perm e.supers := by
+  have hs : superOrder es e = e.supers := by simp [superOrder, sortsBases]
+  unfold bases
+  rw [hs]
+  split
+  · exact pyOrder_perm es _ _ rfl
+  · exact List.Perm.refl _
+
+/-- Base classes are the entity's supertypes **in declaration order** whenever no listed supertype is an ancestor of
+another listed supertype.  `_partial`: excluded is exactly the shape Python itself refuses in declaration order (a class
+may not precede its own subclass in a base list, e.g. AP203e2's `SUBTYPE OF (edge_blended_solid, track_blended_solid)`):
+there `python_base_order` moves the ancestor behind its subtype (`C18_bases_ancestor_moved_witness`).  Depends on the
+regenerated `sortsBases = false`, `ancestorsLast = true`. -/
+theorem C18_bases_decl_order_partial (es : List Entity) (e : Entity)
+    (h : ∀ r ∈ e.supers, ∀ o ∈ e.supers, isAncestor es es.length r o = false) : bases es e = e.supers := by
+  have hs : superOrder es e = e.supers := by simp [superOrder, sortsBases]
+  unfold bases
+  rw [hs]
+  simp only [ancestorsLast, if_true]
+  exact pyOrder_id es e.supers h _ rfl
+
+/-- … in particular for single inheritance. -/
+theorem C18_bases_single_inheritance (es : List Entity) (e : Entity) (x : String) (h : e.supers = [x])
+    (hx : isAncestor es es.length x x = false) : bases es e = e.supers := by
+  apply C18_bases_decl_order_partial
+  rw [h]
+  intro r hr o ho
+  simp only [List.mem_singleton] at hr ho
+  subst hr; subst ho; exact hx
+
+def ancestorFirst : List Entity :=
+  [⟨"n0", [], []⟩, ⟨"n1", ["n0"], []⟩, ⟨"n2", ["n0", "n1"], []⟩]
+
+/-- `ENTITY n2 SUBTYPE OF (n0, n1)` with `n1` a subtype of `n0`: emitted as `class n2(n1,n0)`. -/
+theorem C18_bases_ancestor_moved_witness : bases ancestorFirst ⟨"n2", ["n0", "n1"], []⟩ = ["n1", "n0"] := by
+  decide
 
 theorem sortDesc_id_of_sorted (key : String → Nat) (l : List String)
     (h : l.Pairwise (fun a b => key a ≥ key b)) : sortDesc key l = l := by
@@ -42,30 +109,18 @@ theorem sortDesc_id_of_sorted (key : String → Nat) (l : List String)
       have : ¬ key y > key x := by have := hx.1 y (List.mem_cons_self); omega
       simp [insertDesc, this]
 
-/-- Base classes are the supertypes **in declaration order** whenever the declared supertypes have non-increasing
-supertype-chain lengths (in particular: at most one supertype, or supertypes of equal depth).  `_partial`: excluded are
-entities that list a shallower supertype before a deeper one — there exp2python's `LISTsort(…, cmp_python_mro)` moves the
-deeper one first (`C18_bases_order_witness`). -/
-theorem C18_bases_decl_order_partial (es : List Entity) (e : Entity)
-    (h : e.supers.Pairwise (fun a b => chainLen es es.length a ≥ chainLen es es.length b)) :
-    bases es e = e.supers :=
-  sortDesc_id_of_sorted _ _ h
-
-/-- … in particular for single inheritance. -/
-theorem C18_bases_single_inheritance (es : List Entity) (e : Entity) (h : e.supers.length ≤ 1) :
-    bases es e = e.supers := by
-  apply C18_bases_decl_order_partial
-  match hs : e.supers with
-  | [] => exact List.Pairwise.nil
-  | [x] => exact List.pairwise_singleton _ _
-  | _ :: _ :: _ => rw [hs] at h; simp at h
+/-- What the chain-length sort (`LISTsort(…, cmp_python_mro)`, removed by fixes/C18-7) did: identity exactly on lists
+whose chain lengths are non-increasing … -/
+theorem C18_legacy_sort_identity_on_sorted (key : String → Nat) (l : List String)
+    (h : l.Pairwise (fun a b => key a ≥ key b)) : sortDesc key l = l :=
+  sortDesc_id_of_sorted key l h
 
 def shallowDeep : List Entity :=
   [⟨"g", [], []⟩, ⟨"p", ["g"], []⟩, ⟨"q", [], []⟩, ⟨"c", ["q", "p"], []⟩]
 
-/-- `ENTITY c SUBTYPE OF (q, p)` with `p` deeper than `q` is emitted as `class c(p,q)`: not the declaration order. -/
-theorem C18_bases_order_witness :
-    bases shallowDeep ⟨"c", ["q", "p"], []⟩ = ["p", "q"] ∧ bases shallowDeep ⟨"c", ["q", "p"], []⟩ ≠ ["q", "p"] := by
+/-- … and a reordering otherwise: `ENTITY c SUBTYPE OF (q, p)` with `p` deeper than `q` was emitted as `class c(p,q)`. -/
+theorem C18_legacy_bases_order_witness :
+    sortDesc (chainLen shallowDeep shallowDeep.length) ["q", "p"] = ["p", "q"] := by
   decide
 
 /-! ## one class per entity, legal names -/
@@ -108,38 +163,88 @@ theorem C18_ctor_inherited_then_own (es : List Entity) (e : Entity) :
   simp only [isParam, Bool.or_eq_true, beq_iff_eq] at this
   exact this
 
-theorem dedup_of_nodup (l : List Attr) (h : l.Nodup) : Spec.dedup l = l := by
+theorem flatMap_congr' {α β} (l : List α) (f g : α → List β) (h : ∀ x ∈ l, f x = g x) :
+    l.flatMap f = l.flatMap g := by
   induction l with
   | nil => rfl
-  | cons a as ih =>
-    have ha := List.nodup_cons.mp h
-    simp only [Spec.dedup, ih ha.2]
-    congr 1
-    apply List.filter_eq_self.mpr
-    intro b hb
-    simp only [decide_eq_true_eq]
-    intro hba; subst hba; exact ha.1 hb
+  | cons x xs ih =>
+    simp only [List.flatMap_cons]
+    rw [h x List.mem_cons_self, ih (fun y hy => h y (List.mem_cons_of_mem _ hy))]
 
-/-- Constructor order = Part 21 order for an entity without supertypes (attributes declared once).  `_partial`:
-the general statement fails for an entity that reaches an ancestor along two paths (`C18_ctor_diamond_witness`). -/
-theorem C18_ctor_p21_order_root_partial (es : List Entity) (e : Entity) (hes : es ≠ []) (hs : e.supers = [])
-    (hn : e.attrs.Nodup) : ctorAttrNames es e = Spec.ctorAttrNames es e := by
-  cases es with
-  | nil => exact absurd rfl hes
-  | cons x xs =>
-    simp only [ctorAttrNames, Spec.ctorAttrNames, inheritedAttrs, bases, hs, sortDesc, List.flatMap_nil,
-      List.filter_nil, List.nil_append, List.length_cons, Spec.p21Attrs, dedup_of_nodup _ hn]
+theorem allAttrs_eq_declAttrs (es : List Entity) (f : Nat) (e : Entity) :
+    allAttrs es f e = Spec.declAttrs es f e := by
+  induction f generalizing e with
+  | zero => rfl
+  | succ f ih =>
+    have hb : superOrder es e = e.supers := by simp [superOrder, sortsBases]
+    simp only [allAttrs, Spec.declAttrs, hb]
+    congr 1
+    apply flatMap_congr'
+    intro p _
+    cases find es p with
+    | none => rfl
+    | some pe => exact ih pe
+
+/-- The constructor takes the inherited-then-own explicit attributes **in Part 21 order** (supertypes in declaration
+order, recursively, every inherited attribute once — also for diamonds), for every schema and entity.  Depends on the
+regenerated `sortsBases = false` and `inheritedOnce = true`. -/
+theorem C18_ctor_p21_order (es : List Entity) (e : Entity) : ctorAttrNames es e = Spec.ctorAttrNames es e := by
+  have hb : superOrder es e = e.supers := by simp [superOrder, sortsBases]
+  have h : inheritedAll es e = e.supers.flatMap (fun p => match find es p with
+      | some pe => Spec.declAttrs es es.length pe
+      | none => []) := by
+    simp only [inheritedAll, hb]
+    apply flatMap_congr'
+    intro p _
+    cases find es p with
+    | none => rfl
+    | some pe => exact allAttrs_eq_declAttrs es es.length pe
+  have h2 : inheritedAttrs es e = (Spec.inheritedP21 es e).filter isParam := by
+    unfold inheritedAttrs Spec.inheritedP21
+    rw [h]
+    rfl
+  unfold ctorAttrNames Spec.ctorAttrNames
+  rw [h2]
+
+/-- The emitted parameter list is that attribute sequence, inherited ones renamed `inherited<i>__…` with consecutive
+numbers from 0, own ones under their (escaped) names. -/
+theorem C18_ctor_params_shape (es : List Entity) (e : Entity) :
+    (ctorParams es e).length = (ctorAttrNames es e).length := by
+  have hn : ∀ (l : List Attr) (i : Nat), (numbered i l).length = l.length := by
+    intro l; induction l with
+    | nil => intro i; rfl
+    | cons a as ih => intro i; simp [numbered, ih]
+  simp [ctorParams, ctorAttrNames, ownParams, hn]
 
 def diamond : List Entity :=
   [⟨"root", [], [⟨"root", "x", .explicit⟩]⟩, ⟨"l", ["root"], []⟩, ⟨"r", ["root"], []⟩, ⟨"d", ["l", "r"], []⟩]
 
-/-- A diamond: `d`'s constructor takes `root.x` twice (`inherited0__x, inherited1__x`), Part 21 lists it once. -/
-theorem C18_ctor_diamond_witness :
-    ctorParams diamond ⟨"d", ["l", "r"], []⟩ = ["inherited0__x", "inherited1__x"] ∧
+/-- A diamond: `d` takes `root.x` once. -/
+example : ctorParams diamond ⟨"d", ["l", "r"], []⟩ = ["inherited0__x"] := by decide
+
+/-- Before fixes/C18-8 the inherited parameters were collected once per supertype *path*: the diamond's `d` took
+`root.x` twice, Part 21 lists it once. -/
+theorem C18_legacy_ctor_diamond_witness :
+    numbered 0 ((inheritedAll diamond ⟨"d", ["l", "r"], []⟩).filter isParam) = ["inherited0__x", "inherited1__x"] ∧
     Spec.ctorAttrNames diamond ⟨"d", ["l", "r"], []⟩ = ["x"] := by
   decide
 
+/-! ## the escaping is injective up to the trailing underscore -/
+
+/-- Two different identifiers get different Python names, except an escaped keyword `k` and a declared identifier
+`k_` (e.g. `class` and `class_`), which collide. -/
+theorem C18_escaping_injective (a b : String) (h : pyName a = pyName b) :
+    a = b ∨ (a ∈ pythonKeywords ∧ b = a ++ "_") ∨ (b ∈ pythonKeywords ∧ a = b ++ "_") := by
+  have hk : ∀ x ∈ pythonKeywords, ∀ y ∈ pythonKeywords, x ++ "_" = y ++ "_" → x = y := by decide
+  unfold pyName at h
+  by_cases ha : a ∈ pythonKeywords <;> by_cases hb : b ∈ pythonKeywords
+  · simp only [ha, hb, if_true] at h; exact Or.inl (hk a ha b hb h)
+  · simp only [ha, hb, if_true, if_false] at h; exact Or.inr (Or.inl ⟨ha, h.symm⟩)
+  · simp only [ha, hb, if_true, if_false] at h; exact Or.inr (Or.inr ⟨hb, h⟩)
+  · simp only [ha, hb, if_false] at h; exact Or.inl h
+
 /-- hypotheses are satisfiable -/
-example : bases shallowDeep ⟨"p", ["g"], []⟩ = ["g"] := C18_bases_single_inheritance _ _ (by decide)
+example : bases shallowDeep ⟨"c", ["q", "p"], []⟩ = ["q", "p"] :=
+  C18_bases_decl_order_partial _ _ (by decide)
 
 end StepModel.GenPy
